@@ -243,6 +243,10 @@ def showGEff : GEff → String
   | .adapterBegin m x => "ab:" ++ (match m with | .snap => "snap" | .sub => "sub" | .usb => "usb") ++ ":" ++ Hex.ofStr x
   | .adapterEnd m x => "ae:" ++ (match m with | .snap => "snap" | .sub => "sub" | .usb => "usb") ++ ":" ++ Hex.ofStr x
   | .sent b => "sent:" ++ Hex.ofStr b
+  | .enqueuePill => "enq:" ++ Hex.ofStr stopPill
+  | .sockClose => "sockclose"
+  | .ioHandler => "iohandler"
+  | .exit => "exit"
 
 def parseLKind (ts : List String) : Option LKind :=
   match ts with
@@ -275,6 +279,10 @@ def parseOp (ts : List String) : Option (OpClass × String) :=
   | ["get", t] => some (.get (t == "t"), "")
   | ["send"] => some (.send, "")
   | ["deliver", c] => (Hex.toStr? c).map fun x => (.deliver x, "")
+  | ["join"] => some (.join, "")
+  | ["poolwait"] => some (.poolWait, "")
+  | ["eoi"] => some (.endOfInput, "")
+  | ["sendfail"] => some (.sendFail, "")
   | "llock" :: x :: rest => match Hex.toStr? x, parseLKind rest with
     | some i, some k => some (.lsnLock k, i)
     | _, _ => none
@@ -386,6 +394,11 @@ def stepState (ds : DriverState) (line : String) : DriverState × String :=
   | ["cosim", "data", n, u, p] =>
     match n.toNat?, parseOptStr? u, parseOptStr? p with
     | some k, some uu, some pp => ({ ds with data := some { poolN := k, user := uu, password := pp } }, "ok")
+    | _, _, _ => (ds, "bad-op")
+  | ["cosim", "data", n, u, p, ioh] =>
+    let hb (t : String) : Option Bool := if t = "t" then some true else if t = "f" then some false else none
+    match n.toNat?, parseOptStr? u, parseOptStr? p with
+    | some k, some uu, some pp => ({ ds with data := some { poolN := k, user := uu, password := pp, ioHandler := hb ioh } }, "ok")
     | _, _, _ => (ds, "bad-op")
   | "k" :: rest =>
     match ds.data with
